@@ -8,7 +8,7 @@ from .common_diff import run_cases, generic_replay
 PROOF_MODULE = "Nlmodel.Proofs.C09"
 PROOF_FILES = ["Nlmodel/Proofs/C09.lean", "Nlmodel/Model/Resolve.lean", "Nlmodel/Spec/Eval.lean", "Nlmodel/Model/Pipeline.lean"]
 THEOREM_FILE = PROOF_FILES[0]
-LEVEL_TEXT = ("Lean theorems about the resolver shared by the definitional semantics and the compiler model (one traversal mirroring symbols.rs + compiler.rs, annotating every occurrence with a unique binder and a slot): the innermost/latest declaration wins; an inner scope's names vanish when it is left and outer names are untouched; a function context sees its own names and the global context only; slots of simultaneously live names of one context are pairwise different and are exactly their positions; a program with an undeclared name evaluates to a reference error with EMPTY output on both the machine model and the definitional semantics; R1 (slots implement binders) by induction over the resolver for three syntactic source fragments (control flow; the whole function-free language; top-level functions with calls and locals). Tied to the code by comparing real eval with the binder-based definitional evaluator (which never looks at slots) on scoping-heavy programs, and by metamorphic checks on the implementation alone: consistent renaming, insertion of an unused shadowing declaration in any inner block, replacement of a name by an undeclared one at any position. SESSION 7: ALPHA-EQUIVALENCE (C09_alpha_equivalence, Lemmas/Alpha*): for every renaming of identifiers that is injective on the identifiers of the program, keeps builtin names builtin and the empty name empty, the renamed program compiles to the identical resolved tree and the identical bytecode (or fails with the identical error) - mutual induction over the whole resolver model; hence the same run for every budget and the same definitional answer for every fuel; a non-injective renaming changes the bytecode (kernel-checked counterexample). A RESOLVER-INDEPENDENT SPECIFICATION (Spec/NameEval.lean: evaluator on SOURCE trees with a stack of scopes of names, no binder ids, no slots; NameEval.declared: the static rule that every identifier has an enclosing declaration): C09_resolver_implements_name_scoping (for the stage-3 fragment and every fuel the definitional semantics on the resolved tree equals the name-based semantics on the source tree), C09_rejected_iff_some_name_undeclared (the resolver fails exactly when some identifier is undeclared, with a reference error), C09_names_* (shadowing, block end, later declaration, use after block as theorems about names). WITH FUNCTIONS (Spec/NameEvalFn.lean): C09_resolver_implements_name_scoping_with_functions - for the whole stage-4 source fragment (function literals at top level, calls, parameters, locals, antwoord, recursion) the resolver rejects the program exactly when the static name rule with functions (declaredFn: a body sees its parameters, its own locals and the top-level names visible at the literal - never a scope of the caller) does, with a reference error, and otherwise the definitional semantics equals the name-based one for every fuel; C09_callers_locals_are_invisible; C09_call_keeps_callers_activation.")
+LEVEL_TEXT = ("Lean theorems about the resolver shared by the definitional semantics and the compiler model (one traversal mirroring symbols.rs + compiler.rs, annotating every occurrence with a unique binder and a slot): the innermost/latest declaration wins; an inner scope's names vanish when it is left and outer names are untouched; a function context sees its own names and the global context only; slots of simultaneously live names of one context are pairwise different and are exactly their positions; a program with an undeclared name evaluates to a reference error with EMPTY output on both the machine model and the definitional semantics; R1 (slots implement binders) by induction over the resolver for three syntactic source fragments (control flow; the whole function-free language; top-level functions with calls and locals). Tied to the code by comparing real eval with the binder-based definitional evaluator (which never looks at slots) on scoping-heavy programs, and by metamorphic checks on the implementation alone: consistent renaming, insertion of an unused shadowing declaration in any inner block, replacement of a name by an undeclared one at any position. SESSION 7: ALPHA-EQUIVALENCE (C09_alpha_equivalence, Lemmas/Alpha*): for every renaming of identifiers that is injective on the identifiers of the program, keeps builtin names builtin and the empty name empty, the renamed program compiles to the identical resolved tree and the identical bytecode (or fails with the identical error) - mutual induction over the whole resolver model; hence the same run for every budget and the same definitional answer for every fuel; a non-injective renaming changes the bytecode (kernel-checked counterexample). A RESOLVER-INDEPENDENT SPECIFICATION (Spec/NameEval.lean: evaluator on SOURCE trees with a stack of scopes of names, no binder ids, no slots; NameEval.declared: the static rule that every identifier has an enclosing declaration): C09_resolver_implements_name_scoping (for the stage-3 fragment and every fuel the definitional semantics on the resolved tree equals the name-based semantics on the source tree), C09_rejected_iff_some_name_undeclared (the resolver fails exactly when some identifier is undeclared, with a reference error), C09_names_* (shadowing, block end, later declaration, use after block as theorems about names). WITH FUNCTIONS (Spec/NameEvalFn.lean): C09_resolver_implements_name_scoping_with_functions - for the whole stage-4 source fragment (function literals at top level, calls, parameters, locals, antwoord, recursion) the resolver rejects the program exactly when the static name rule with functions (declaredFn: a body sees its parameters, its own locals and the top-level names visible at the literal - never a scope of the caller) does, with a reference error, and otherwise the definitional semantics equals the name-based one for every fuel; C09_callers_locals_are_invisible; C09_call_keeps_callers_activation. WITH HEAP VALUES AND BUILTINS (Spec/NameEvalH.lean): C09_resolver_implements_name_scoping_with_heap_values - the whole function-free language (floats, texts, lists, indexing and index assignment with aliasing, all operators, the seven builtins incl. print): rejected exactly when the static name rule says so, otherwise value, OUTPUT, error, out-of-fuel and unspecified agree for every fuel.")
 LEVEL_NOTE = ("Trusted: Lean kernel; the resolver model is tied to symbols.rs/compiler.rs by the correspondence (bytecode equality is checked as a diagnostic in C10). The refinement 'slots implement binders' (R1) IS a theorem for three syntactic source fragments, by induction over the resolver: control flow over scalars (C09_slots_implement_binders_control_flow), the whole function-free language incl. heap values and builtins (C09_slots_implement_binders_function_free), and programs with top-level function definitions, calls, locals in nested block scopes of bodies (C09_slots_implement_binders_functions: a body's variable is a local of THAT body in its frame slot or an earlier global, never a caller's local; distinct function ids); composed with the simulation theorems of C01 the slot-based machine and the binder-based semantics agree there. Since stages 6 and 7 also with heap values inside bodies and function literals nested to any depth (C09_slots_implement_binders_nested_functions: a body reads and writes its own frame and persistent globals only; function ids pairwise distinct for EVERY accepted program). Outside (literals in top-level blocks, named literals in expression position) it is decided per program by the correspondence.")
 TECHNIQUE = "Lean 4 proof (symbol-table/resolver lemmas) + differential and metamorphic scoping checks"
 RULE = ("generated programs with nested blocks, shadowing at every depth <= 5, functions in blocks and in functions, recursion, one "
